@@ -1,9 +1,9 @@
 #!/bin/bash
-# usage: extract.sh <srcdir> <config: std|serde|nostd> <outdir>
+# usage: extract.sh <srcdir> <config: std|serde|nostd> <outdir> [crate name, default priority_queue]
 # Runs the pqfacts driver over <srcdir> (a checkout of priority-queue) with the real manifest,
 # in a fresh target dir outside /repo and /verif.  Writes <outdir>/priority_queue.json.
 set -u
-SRC="$1"; CFG="$2"; OUT="$3"
+SRC="$1"; CFG="$2"; OUT="$3"; CRATE="${4:-priority_queue}"
 HERE="$(cd "$(dirname "$0")/.." && pwd)"
 DRV="$HERE/pqfacts/target/release/pqfacts"
 [ -x "$DRV" ] || { echo "extract: driver not built (run setup)" >&2; exit 3; }
@@ -11,7 +11,7 @@ SYSROOT="$(rustc +nightly --print sysroot)"
 TGT="$(mktemp -d /tmp/pqfacts-tgt.XXXXXX)"
 trap 'rm -rf "$TGT"' EXIT
 mkdir -p "$OUT"
-rm -f "$OUT/priority_queue.json"
+rm -f "$OUT/$CRATE.json"
 case "$CFG" in
   std)   FEAT=() ;;
   serde) FEAT=(--features serde) ;;
@@ -23,9 +23,9 @@ LD_LIBRARY_PATH="$SYSROOT/lib" \
 RUSTFLAGS="-Zmir-opt-level=0 -Awarnings -Cdebug-assertions=off -Coverflow-checks=on" \
 RUSTC_WORKSPACE_WRAPPER="$DRV" \
 CARGO_TARGET_DIR="$TGT" CARGO_NET_OFFLINE=true \
-PQFACTS_OUT="$OUT" PQFACTS_CRATES=priority_queue PQFACTS_CONFIG="$CFG" \
+PQFACTS_OUT="$OUT" PQFACTS_CRATES="$CRATE" PQFACTS_CONFIG="$CFG" \
 cargo +nightly check --offline --lib "${FEAT[@]}" >"$OUT/cargo.log" 2>&1
 rc=$?
 if [ $rc -ne 0 ]; then echo "extract: cargo check failed (config $CFG), see $OUT/cargo.log" >&2; tail -20 "$OUT/cargo.log" >&2; exit 2; fi
-[ -s "$OUT/priority_queue.json" ] || { echo "extract: no fact file written (config $CFG)" >&2; exit 2; }
+[ -s "$OUT/$CRATE.json" ] || { echo "extract: no fact file written (config $CFG)" >&2; exit 2; }
 exit 0
